@@ -104,6 +104,15 @@ FieldColMismatch(o) ==
                 /\ IntOf(Cell(o, S, "tableRef", RowIdx(o, S, sref)))
                      # IntOf(Cell(o, MC, "parentId", RowIdx(o, MC, cref)))}}
 
+\* the raw / record-card section of a table shows that table
+RawSectionMismatch(o) ==
+  LET S == "_grist_Views_section"
+  IN IF ~(MT \in DOMAIN o /\ S \in DOMAIN o) THEN {}
+     ELSE {o[MT].rows[i] : i \in {k \in Idx(o, MT) :
+             \E c \in {"rawViewSectionRef", "recordCardViewSectionRef"} \cap DOMAIN o[MT].cols :
+               LET sref == IntOf(Cell(o, MT, c, k))
+               IN sref \in RowSet(o, S) /\ IntOf(Cell(o, S, "tableRef", RowIdx(o, S, sref))) # o[MT].rows[k]}}
+
 \* exactly one metadata record per user table of engine.schema (sch is keyed by tableId tokens)
 TableRecordMismatch(o, sch) ==
   IF MT \notin DOMAIN o THEN {"no-meta"}
@@ -176,4 +185,89 @@ BadRefListCleanup(p, o, S) ==
                 : c \in {d \in DataRefColsOf(o, t) : t \in DOMAIN p /\ o[t].base[d] = "RefList"}}
          : t \in S \cap DOMAIN o}
 
+
+(***************************************************************************)
+(* C11: two-way references stay symmetric                                  *)
+(***************************************************************************)
+TableIdOfRef(o, tref) == StrOf(Cell(o, MT, "tableId", RowIdx(o, MT, tref)))
+
+TwoWayViolations(o) ==
+  IF ~(MT \in DOMAIN o /\ MC \in DOMAIN o /\ "reverseCol" \in DOMAIN o[MC].cols) THEN {} ELSE
+  LET C == o[MC]
+      linked == {j \in Idx(o, MC) : IntOf(C.cols.reverseCol[j]) # 0}
+      Bad(j) ==
+        LET rref == IntOf(C.cols.reverseCol[j])
+        IN IF rref \notin RowSet(o, MC) THEN TRUE
+           ELSE LET jb == RowIdx(o, MC, rref)
+                    pa == IntOf(C.cols.parentId[j])
+                    pb == IntOf(C.cols.parentId[jb])
+                IN IF pa \notin RowSet(o, MT) \/ pb \notin RowSet(o, MT) THEN TRUE
+                   ELSE LET ta == TableIdOfRef(o, pa)   tb == TableIdOfRef(o, pb)
+                            ca == StrOf(C.cols.colId[j])   cb == StrOf(C.cols.colId[jb])
+                        IN \/ IntOf(C.cols.reverseCol[jb]) # C.rows[j]        \* the link is mutual
+                           \/ ~(ta \in DOMAIN o /\ tb \in DOMAIN o)
+                           \/ ~(ca \in DOMAIN o[ta].cols /\ cb \in DOMAIN o[tb].cols)
+                           \/ \E ia \in Idx(o, ta), ib \in Idx(o, tb) :
+                                (o[tb].rows[ib] \in IntSet(o[ta].cols[ca][ia]))
+                                  # (o[ta].rows[ia] \in IntSet(o[tb].cols[cb][ib]))
+  IN {C.rows[j] : j \in {k \in linked : Bad(k)}}
+
+(***************************************************************************)
+(* C12: summary tables are exact group-bys of their source                 *)
+(***************************************************************************)
+\* Python equality classes of keys: True = 1, False = 0
+NormKey(tok) == IF tok = "b1" THEN "#1" ELSE IF tok = "b0" THEN "#0" ELSE tok
+
+RECURSIVE SortedInts(_)
+SortedInts(S) == IF S = {} THEN <<>>
+                 ELSE LET m == CHOOSE x \in S : \A y \in S : x <= y IN <<m>> \o SortedInts(S \ {m})
+
+SummaryViolationsOf(o, i) ==
+  LET T == o[MT]
+      C == o[MC]
+      ts == T.rows[i]
+      srcRef == IntOf(T.cols.summarySourceTable[i])
+  IN IF srcRef \notin RowSet(o, MT) THEN {"C12.source"} ELSE
+  LET sumId == StrOf(T.cols.tableId[i])
+      srcId == TableIdOfRef(o, srcRef)
+  IN IF ~(sumId \in DOMAIN o /\ srcId \in DOMAIN o) THEN {"C12.source"} ELSE
+  LET gb == {j \in Idx(o, MC) : IntOf(C.cols.parentId[j]) = ts /\ IntOf(C.cols.summarySourceCol[j]) # 0
+                               /\ IntOf(C.cols.summarySourceCol[j]) \in RowSet(o, MC)}
+      SumCol(j) == StrOf(C.cols.colId[j])
+      SrcCol(j) == StrOf(C.cols.colId[RowIdx(o, MC, IntOf(C.cols.summarySourceCol[j]))])
+  IN IF \E j \in gb : SumCol(j) \notin DOMAIN o[sumId].cols \/ SrcCol(j) \notin DOMAIN o[srcId].cols
+        \/ "group" \notin DOMAIN o[sumId].cols
+     THEN {"C12.columns"} ELSE
+  LET Empty(base) == IF base = "ChoiceList" THEN "s" ELSE "#0"
+      KeyVals(ir, j) ==
+        LET cell == o[srcId].cols[SrcCol(j)][ir]
+            base == o[srcId].base[SrcCol(j)]
+        IN IF base \in {"ChoiceList", "RefList"}
+           THEN IF IsList(cell)
+                THEN IF ElemsOf(cell) = <<>> THEN {Empty(base)}
+                     ELSE {NormKey(ElemsOf(cell)[k]) : k \in 1..Len(ElemsOf(cell))}
+                ELSE IF cell = "n" THEN {Empty(base)} ELSE {}
+           ELSE {NormKey(cell)}
+      Keys(ir) == LET U == UNION {KeyVals(ir, j) : j \in gb}
+                  IN {f \in [gb -> U] : \A j \in gb : f[j] \in KeyVals(ir, j)}
+      SrcIdx == Idx(o, srcId)
+      AllKeys == UNION {Keys(ir) : ir \in SrcIdx}
+      Expected(key) == SortedInts({o[srcId].rows[ir] : ir \in {x \in SrcIdx : key \in Keys(x)}})
+      SumIdx == Idx(o, sumId)
+      RowKey(k) == [j \in gb |-> NormKey(o[sumId].cols[SumCol(j)][k])]
+      RowGroup(k) == IntsOf(o[sumId].cols.group[k])
+  IN (IF {RowKey(k) : k \in SumIdx} = AllKeys THEN {} ELSE {"C12.keys"})
+     \cup (IF \A k1, k2 \in SumIdx : k1 # k2 => RowKey(k1) # RowKey(k2) THEN {} ELSE {"C12.dup"})
+     \cup (IF \A k \in SumIdx : RowKey(k) \in AllKeys => RowGroup(k) = Expected(RowKey(k))
+          THEN {} ELSE {"C12.group"})
+
+SummaryViolations(o) ==
+  IF ~(MT \in DOMAIN o /\ MC \in DOMAIN o /\ "summarySourceTable" \in DOMAIN o[MT].cols) THEN {} ELSE
+  UNION {{<<o[MT].rows[i], c>> : c \in SummaryViolationsOf(o, i)}
+         : i \in {k \in Idx(o, MT) : IntOf(o[MT].cols.summarySourceTable[k]) # 0}}
+
+HasSummary(o) == MT \in DOMAIN o /\ "summarySourceTable" \in DOMAIN o[MT].cols
+                 /\ \E k \in Idx(o, MT) : IntOf(o[MT].cols.summarySourceTable[k]) # 0
+HasTwoWay(o) == MC \in DOMAIN o /\ "reverseCol" \in DOMAIN o[MC].cols
+                /\ \E k \in Idx(o, MC) : IntOf(o[MC].cols.reverseCol[k]) # 0
 =============================================================================
